@@ -25,6 +25,18 @@ def run(run):
     im = core.run_impl(reqs)
     mo = core.run_model(reqs)
     dis = stmt.tie(run, "LINEAGE", reqs, mo, im, [c[1] for c in cases])
+    # histories on ONE analyser (one process, in order): a statement that fails after its WITH / derived-table scope was registered, then a statement over the
+    # base table of that name; the runner answers every request on a fresh analyser and on the per-catalogue long-lived one and reports a difference
+    hc = []
+    while len(hc) < 150:
+        c0 = lingen.case(run.rng)
+        hc += [c0] + lingen.failed_scope_pair(run.rng, c0[0])
+    hreqs = ["LINEAGE %s | %s" % (c[0].request_part(), stmt.cps(c[1])) for c in hc]
+    him = core.run_impl(hreqs)
+    dis += stmt.tie(run, "LINEAGE (failed-scope histories)", hreqs, core.run_model(hreqs), him, [c[1] for c in hc])
+    cases += hc
+    reqs += hreqs
+    im += him
     fails = []
     kinds = {}
     for (cat, text, exp, keys), a, rq in zip(cases, im, reqs):
